@@ -238,9 +238,11 @@ fn judge_f64(st: &mut Stats, rng: &mut Rng) {
         let sub: Vec<f64> = (0..n - 1).map(|_| rng.sym()).collect();
         let sup: Vec<f64> = (0..n - 1).map(|_| rng.sym()).collect();
         let main: Vec<f64> = (0..n).map(|i| { let s = if i > 0 { sub[i - 1].abs() } else { 0.0 } + if i + 1 < n { sup[i].abs() } else { 0.0 }; (s + rng.range(0.05, 1.0)) * if rng.bool() { 1.0 } else { -1.0 } }).collect();
-        let sc = rng.logpos(1e-6, 1e6);
+        // units anywhere between 2^-300 and 2^300 ("all diagonal contents"): the scale must not matter
+        let sc = if rng.chance(0.4) { 2f64.powi(rng.int(-300, 300) as i32) } else { rng.logpos(1e-6, 1e6) };
         let tf = Tri { sub: sub.iter().map(|x| x * sc).collect::<Vec<f64>>(), main: main.iter().map(|x| x * sc).collect(), sup: sup.iter().map(|x| x * sc).collect() };
-        let r: Vec<f64> = (0..n).map(|_| rng.sym() * rng.logpos(1e-3, 1e3)).collect();
+        let rsc = if sc < 1e-30 || sc > 1e30 { sc } else { 1.0 };
+        let r: Vec<f64> = (0..n).map(|_| rng.sym() * rng.logpos(1e-3, 1e3) * rsc).collect();
         let desc = || format!("T=f64(dominant) n={} sub={:?} main={:?} sup={:?} r={:?}", n, tf.sub, tf.main, tf.sup, r);
         let m = tf.build(rng.usize(0, 1));
         st.eval();
